@@ -69,8 +69,20 @@ def run_two_files(seed):
         lb[rng.randrange(len(lb))] = 'changed ' + gen.rand_text(rng, 15, allow_empty=False, tabs_ok=False)
         open(fa, 'w').write('\n'.join(la) + '\n')
         open(fb, 'w').write('\n'.join(lb) + '\n')
-        how = rng.choice(['absolute', 'absolute', 'relative', 'dotdot', 'mixed'])
-        if how == 'absolute':
+        how = rng.choice(['absolute', 'absolute', 'relative', 'dotdot', 'mixed', 'directories', 'backup-tree'])
+        if how == 'backup-tree':
+            # a backup that replicates absolute paths: the old file's path ends with the whole path of the new one
+            os.unlink(fa)
+            fa = os.path.join(base, 'backup') + fb
+            os.makedirs(os.path.dirname(fa))
+            open(fa, 'w').write('\n'.join(la) + '\n')
+        if how == 'directories':
+            # two directories: the files below them are compared (one here; the same name on both sides)
+            os.unlink(fb)
+            fb = os.path.join(base, 'two', os.path.basename(fa))
+            cwd, a, b = os.path.join(base, 'elsewhere'), os.path.join(base, 'one', 'sub'), os.path.join(base, 'two')
+            open(fb, 'w').write('\n'.join(lb) + '\n')
+        elif how in ('absolute', 'backup-tree'):
             cwd, a, b = os.path.join(base, 'elsewhere'), fa, fb
         elif how == 'relative':
             cwd, a, b = base, os.path.relpath(fa, base), os.path.relpath(fb, base)
@@ -97,6 +109,16 @@ def run_two_files(seed):
         if not targets:
             return violated('c19:two-files:no-links', 'delta --hyperlinks a b wrote no file link at all', 'links', 'none', run=res, sets=sets)
         wrong = [(t, x) for t, x in targets if t not in (norm(fa), norm(fb))]
+        if not wrong and how in ('absolute', 'backup-tree', 'directories'):
+            # which of the two: a link whose text is a path (git names absolute paths without the leading slash) leads to
+            # that path, a linked line number to the new file
+            for t, x in targets:
+                x = x.strip()
+                if x.isdigit():
+                    if t != norm(fb):
+                        wrong.append((t, x))
+                elif '/' in x and norm('/' + x) in (norm(fa), norm(fb)) and t != norm('/' + x):
+                    wrong.append((t, x))
         if wrong:
             return violated('c19:two-files:target:' + how, 'delta --hyperlinks %s %s (started in %s): a file link names neither of the two files' % (a, b, cwd),
                             [norm(fa), norm(fb)], wrong[:3], run=res, sets=sets)
